@@ -750,7 +750,9 @@ func c08Writers(c *core.Ctx) {
 func c08IgnoreMembership(c *core.Ctx) {
 	fn := c.LookupFunc("pkg/updown", "stringInArray")
 	if fn == nil {
-		c.Und("R2/ignore-list-membership", token.NoPos, "UNRESOLVED anchor updown.stringInArray")
+		// the membership helper is not where it was (inlined, or moved to a shared package): that ignored names are
+		// excluded, and only they, is decided on the binning routine itself (R2/findUpDownCatchment/mixed-bins-fill-ignore)
+		c.Note("updown.stringInArray not found: --ignore membership is decided through the binning routine only")
 		return
 	}
 	names := []string{"T_up", "T_down", "T_far", "a"}
